@@ -6,7 +6,7 @@ ipv4/control.go + control_unix.go + control_pktinfo.go, ipv6/control.go + contro
 linux/amd64 only: little-endian native order, `cmsghdr` = {Len uint64, Level int32, Type int32},
 8-byte alignment. On Linux the IPv4 `ctlOpts` table has entries for TTL (IP_TTL, 1 byte) and packet
 info (IP_PKTINFO, in_pktinfo) only; the entries for Dst and Interface are the zero value (nil
-parser) — `ControlMessage.Parse` still consults them, which is modelled (`panic`). The IPv6 table
+parser) and are skipped by `ControlMessage.Parse` (guard `name > 0`). The IPv6 table
 has TrafficClass, HopLimit, PacketInfo (in6_pktinfo), PathMTU (ip6_mtuinfo); NextHop has no entry
 on Linux, so `Marshal` never emits it.
 Addresses are byte lists (0 = nil, 4 or 16 bytes).
@@ -109,13 +109,14 @@ inductive PR (α : Type) where
   | panic
 deriving Repr
 
-/-- One message applied to an IPv4 control message; `none` = nil-function call (the zero `ctlOpts`
-entries of Dst / Interface match type 0 with any length). -/
+/-- One message applied to an IPv4 control message. The cases of `Parse` are guarded by
+`ctlOpts[...].name > 0`, so the zero entries of Dst / Interface (Linux) never match; the `Option`
+is kept for the shape of the loop but `none` (a nil-function call) is unreachable — see
+`cm4_parse_total`. -/
 def CM4.apply (cm : CM4) (m : List Nat) : Option CM4 :=
   let (lvl, typ, data) := msgHeader m
   if lvl ≠ protocolIP then some cm
   else if typ = ipTTL ∧ data.length ≥ 1 then some { cm with ttl := (data.getD 0 0 : Nat) }
-  else if typ = 0 then none
   else if typ = ipPktinfo ∧ data.length ≥ sizeofInetPktinfo then
     some { cm with ifIndex := rdI32 data,
                    dst := (if cm.dst.length < 4 then (data.drop 8).take 4
